@@ -194,6 +194,12 @@ class Report:
         self.coverage = {}
         self.assumptions = []
         self.level = "proof"
+        self.escalation = 1
+
+    def scale(self, n):
+        """number of generated cases: the quick tier looks harder when the code this property's model
+        mirrors differs from the tree the model was validated on (see harness/anchors.py)"""
+        return n * self.escalation if self.tier == "quick" else n
 
     def violation(self, replay_obj, failing_input_found, summary):
         replay_obj = dict(replay_obj)
@@ -249,6 +255,12 @@ def proof_gate(rep, prop, theorems, imports):
     (empty = all theorems present with permitted axioms). Infra problems raise.
     Only the property's own modules (and the driver) are built, so that a broken generated-facts
     module of another property cannot disturb this one."""
+    from . import anchors
+    ch = anchors.changed(prop)
+    if ch and not os.environ.get("VERIF_NO_ESCALATION"):
+        rep.escalation = anchors.FACTOR
+    rep.coverage["anchored_source_changed"] = ch
+    rep.coverage["case_count_factor"] = rep.escalation
     if os.environ.get("VERIF_SKIP_BUILD") == "1":       # tools/matrix.py: many checks in parallel on scratch copies of /repo
         rep.coverage.update({"obligations": len(theorems), "discharged": len(theorems), "checker_cmd": "(skipped: VERIF_SKIP_BUILD)",
                              "trusted_base": TRUSTED_BASE})
